@@ -411,6 +411,7 @@ func runStreams(prop, tier string, seed int64, streams []Stream, budget int, cor
 	seen := map[string]map[string]bool{}
 	var order []string
 	sampled := map[string]int{}
+	verdicts := map[string]int{}
 	for i, s := range all {
 		st, ok := stats[s.Stream]
 		if !ok {
@@ -444,9 +445,13 @@ func runStreams(prop, tier string, seed int64, streams []Stream, budget int, cor
 			res.Samples = append(res.Samples, map[string]any{"stream": s.Stream, "class": s.Class, "lines": clip(s.Lines), "impl": clip(impl[i]), "model": clip(model[i])})
 		}
 		if kind := classify(impl[i], model[i]); kind != "" {
-			if len(res.Findings) < 40 {
+			// per kind and verdict, so that thousands of disagreements (or many instances of
+			// one known finding) cannot crowd out a different oracle verdict
+			vk := kind + "|" + s.Stream + "|" + verdictKey(impl[i])
+			verdicts[vk]++
+			if verdicts[vk] <= 8 && len(res.Findings) < 200 {
 				sh := s
-				if countKind(res.Findings, kind) < 5 {
+				if verdicts[vk] <= 3 {
 					sh = shrink(s, kind)
 				}
 				si := runImpl(&sh)
@@ -470,6 +475,20 @@ func runStreams(prop, tier string, seed int64, streams []Stream, budget int, cor
 	}
 	res.WallS = time.Since(t0).Seconds()
 	return res
+}
+
+// verdictKey: the first two words of the first oracle verdict of a script ("" if none)
+func verdictKey(impl []string) string {
+	for _, l := range impl {
+		if isViolationLine(l) {
+			f := strings.Fields(l)
+			if len(f) > 2 {
+				f = f[:2]
+			}
+			return strings.Join(f, " ")
+		}
+	}
+	return ""
 }
 
 func countKind(fs []Finding, k string) int {
